@@ -144,12 +144,31 @@ def false_issue_signature(m, issue, vi):
         if name and ('prior to' in msg or 'assigned to before' in msg):
             # classify the earlier occurrences of that name: are they references/assignments CPython counts?
             kinds = set()
-            l = m.get_first_leaf()
+            # only occurrences inside the scope the declaration belongs to (not the def's own name or outer code)
+            here = leaf_starting_at(m, issue.start_pos)
+            scope_node = here.search_ancestor('funcdef', 'classdef') if here is not None else None
+            if scope_node is not None:
+                l = scope_node.children[2].get_first_leaf()
+            else:
+                l = m.get_first_leaf()
             while l is not None and l.start_pos < issue.start_pos:
                 if l.type == 'name' and l.value == name and l.parent.type not in ('global_stmt', 'nonlocal_stmt'):
                     p = l.parent
                     imp = l.search_ancestor('import_name', 'import_from')
-                    if imp is not None:
+                    nested = None
+                    a = l.parent
+                    while a is not None and a.type not in ('funcdef', 'classdef', 'file_input'):
+                        if a.type == 'lambdef':
+                            nested = 'lambda'
+                            break
+                        if any(c.type in ('comp_for', 'sync_comp_for') for c in getattr(a, 'children', ())):
+                            nested = 'comprehension'
+                            break
+                        a = a.parent
+                    if nested is not None:
+                        # names of a nested lambda / comprehension scope are recorded as uses of the enclosing function
+                        kinds.add('earlier-use-belongs-to-a-nested-lambda-or-comprehension-scope')
+                    elif imp is not None:
                         # one root cause: every name inside an import statement (dotted tail, module part of a
                         # from-import, bound name/alias) is recorded as a use/assignment of that name
                         kinds.add('earlier-use-is-name-in-import-statement')
